@@ -528,6 +528,17 @@ let cmd_pg (x : sx) : sx =
             res_sx (fun ms -> sorted_sx (List.map (fun (p, m) -> L [n_sx p; pgmap_sx m]) ms))
               (run pg_dom pg_fuel a (sx_pghost h)))
            (match hosts with L l -> l | _ -> failwith "hosts"))
+  | L [A "pg-srset"; aut; pats] ->
+      (* hypotheses of c02_portgraph_run_complete_on_single_root_pattern_sets on the dump of an automaton
+         compiled from single-root patterns: every key hangs off Root(0); the keys recorded for pattern i
+         are keys of pattern i *)
+      let a = sx_automaton sx_pgkey sx_pgcons aut in
+      let ps = sx_list (fun x -> match x with L [g; r] -> (sx_pghost g, sx_n r) | _ -> failwith "pat") pats in
+      L [A "sr"; bool_sx (aut_single_root a);
+         A "mk"; L (List.mapi (fun i (g, r) ->
+                      match pg_cvec_full g r with
+                      | Ok (_, nk) -> bool_sx (match_keys_in nk a (n_of_int i))
+                      | _ -> A "-") ps)]
   | L [A "pg-ownkeys"; aut; g; root] ->
       (* hypothesis of c02_portgraph_run_reports_embeddings_of_good_patterns: every key of the
          automaton is a key of the pattern (the pattern compiled alone) *)
@@ -584,7 +595,7 @@ let dispatch (x : sx) : sx =
   | L (A ("tree" | "powerset" | "conditioned" | "with-children" | "pairwise" | "transitive") :: _) -> cmd_c10 x
   | L ((A ("aut-run" | "cvec" | "single" | "naive" | "cert" | "occ")) :: _ as args) -> cmd_engine args
   | L (A ("tab-run" | "tab-cert") :: _) -> cmd_tab x
-  | L (A ("pg-opts" | "pg-walk" | "pg-single" | "pg-naive" | "pg-run" | "pg-cert" | "pg-cvec" | "pg-cover" | "pg-good" | "pg-ownkeys" | "pg-hostwf") :: _) -> cmd_pg x
+  | L (A ("pg-opts" | "pg-walk" | "pg-single" | "pg-naive" | "pg-run" | "pg-cert" | "pg-cvec" | "pg-cover" | "pg-good" | "pg-ownkeys" | "pg-srset" | "pg-hostwf") :: _) -> cmd_pg x
   | _ -> failwith "unknown command"
 
 let () =
